@@ -135,6 +135,8 @@ def discharge(S, ob, leaf_types=None, invariants=None):
                         truth = True if ra[1] <= rb[0] else (False if ra[0] > rb[1] else None)
                     else:
                         truth = None
+                    if truth is None:
+                        truth = relational_cmp(S, pc, atom, leaf_types, invariants)
                     if truth is None or truth != pol:
                         allok = False
                 else:
@@ -149,3 +151,27 @@ def discharge(S, ob, leaf_types=None, invariants=None):
             return True, "both sides have static length %d" % nd, set()
         return False, "copy_from_slice length mismatch not excluded (%s vs %s)" % (nd, ns), set()
     return False, "unsupported obligation kind %s" % kind, set()
+
+
+def relational_cmp(S, pc, atom, leaf_types, invariants):
+    """Decide `a < K` / `a <= K` (K constant) relationally: expand gated alternatives of `a` and ask the
+    octagon domain whether the guards force the comparison.  True / False / None."""
+    from .intlin import expand, entails_range
+    op, a, b = atom[1], atom[2], atom[3]
+    if b[0] != "int" or op not in ("Lt", "Le"):
+        return None
+    K = b[1] - (1 if op == "Lt" else 0)        # a <= K
+    # strip value-preserving outer casts lazily: entails_range works on the term itself
+    allt, allf = True, True
+    for pc_i, a_i in expand(S, a, pc=pc):
+        hi = entails_range(S, pc_i, a_i, -(1 << 130), K, leaf_types, invariants)
+        lo = entails_range(S, pc_i, a_i, K + 1, 1 << 130, leaf_types, invariants)
+        if not hi:
+            allt = False
+        if not lo:
+            allf = False
+    if allt:
+        return True
+    if allf:
+        return False
+    return None
